@@ -1,6 +1,8 @@
 (* C06 - Disabled attributes can never be encrypted to again, but stay decryptable. *)
 From Coq Require Import List NArith Bool Arith Lia.
 From CC Require Import Policy Structure Keys KeysMachine RefreshProofs DisabledProofs PinnedRefuted.
+From CC Require Import DisabledProofs KInv1 KInv2 KInv3 KInv4 KInv4b KInv5 KInv6 KInv7 KInv8 KInv9 KInv10.
+From CC Require KeysTheorems.
 Import ListNotations.
 
 (* update_msk establishes, for an attribute id that is disabled in the structure: every right containing the id has a
@@ -38,3 +40,57 @@ Theorem C06_pinned_refuted : exists secs,
   fst (rekey_loop fx_none [[0%N]] [([0%N], [(false, s 1)])] 5%N) = secs /\ rlookup [0%N] secs = Some [(true, s 5); (false, s 1)].
 Proof. exact rekey_reactivates_refuted. Qed.
 Print Assumptions C06_pinned_refuted.
+
+(* ---- over all reachable states of the key-management state machine (KInv*.v, gathered in KeysTheorems.v) ---- *)
+Theorem C06_no_reenable_reach :
+  forall (s : state) (o : op) (a : N),
+       is_setup o = false ->
+       (a < next_id (m_st (st_msk s)))%N ->
+       disabled_id (m_st (st_msk s)) a ->
+       disabled_id (m_st (st_msk (fst (step fixed s o)))) a /\
+       (a < next_id (m_st (st_msk (fst (step fixed s o)))))%N.
+Proof. exact (@KeysTheorems.C06_no_reenable). Qed.
+Print Assumptions C06_no_reenable_reach.
+
+Theorem C06_disabled_never_published_reach :
+  forall (ops1 : list op) (d n : str) (ops2 : list op) (a : N),
+       let s1 := run_state fixed init ops1 in
+       let s2 := fst (step fixed s1 (ODisable d n)) in
+       let s := run_state fixed init (ops1 ++ [ODisable d n; OUpdate] ++ ops2) in
+       attr_id_of (m_st (st_msk s1)) d n = Some a ->
+       snd (step fixed s1 (ODisable d n)) = ObOk ->
+       snd (step fixed s2 OUpdate) = ObOk ->
+       ~ In OSetup ops2 ->
+       forall (j : nat) (pk : mpk),
+       length (st_mpks s2) <= j ->
+       nth_error (st_mpks s) j = Some pk ->
+       (forall (r : rightk) (sk : secret), In (r, sk) (p_keys pk) -> ~ In a r) /\
+       (forall (p : str) (rs : list rightk) (r : rightk),
+        enc_rights fixed (p_st pk) p = ROk rs ->
+        In r rs -> In a r -> snd (step fixed s (OEncaps j p)) = ObErr).
+Proof. exact (@KeysTheorems.C06_disabled_never_published). Qed.
+Print Assumptions C06_disabled_never_published_reach.
+
+Theorem C06_disabled_still_decrypts_reach :
+  forall (s : state) (d n : str),
+       let s1 := fst (step fixed s (ODisable d n)) in
+       let s2 := fst (step fixed s1 OUpdate) in
+       (st_usks s1 = st_usks s /\
+        st_encs s1 = st_encs s /\
+        st_mpks s1 = st_mpks s /\
+        st_ctr s1 = st_ctr s /\
+        m_secrets (st_msk s1) = m_secrets (st_msk s) /\ m_users (st_msk s1) = m_users (st_msk s)) /\
+       (st_usks s2 = st_usks s /\
+        st_encs s2 = st_encs s /\
+        (forall (r : rightk) (ch : list (bool * secret)),
+         rlookup r (m_secrets (st_msk s)) = Some ch ->
+         rmem r (omega_map (m_st (st_msk s1))) = true ->
+         exists ch' : list (bool * secret),
+           rlookup r (m_secrets (st_msk s2)) = Some ch' /\
+           map (fun p : bool * secret => tok (snd p)) ch' = map (fun p : bool * secret => tok (snd p)) ch /\
+           tl ch' = tl ch)) /\
+       (forall k e : nat, snd (step fixed s2 (ODecaps k e)) = snd (step fixed s (ODecaps k e))).
+Proof. exact (@KeysTheorems.C06_disabled_still_decrypts). Qed.
+Print Assumptions C06_disabled_still_decrypts_reach.
+
+
